@@ -254,7 +254,14 @@ func (fx *fnExec) applyContract(dst *ssa.Call, ctr *FuncContract, name string, c
 		if !cl.inMode(fx.mode) {
 			continue
 		}
-		fx.oblige(fmt.Sprintf("pre@%s.%d%s", short, k+1, lbl(cl)), "pre", fx.evalClause(cl, env), where, name+" requires "+cl.Src)
+		pt, stated := fx.tryEvalCalleePre(cl, env, callee)
+		if !stated {
+			// the clause names a variable the closure captured, and the closure value reached this call through a
+			// captured variable (its bindings are not known here): the precondition cannot be stated at this site
+			fx.noteUnspec("precondition of " + name + " over its captured variables is not checked at this call site: " + cl.Src)
+			continue
+		}
+		fx.oblige(fmt.Sprintf("pre@%s.%d%s", short, k+1, lbl(cl)), "pre", pt, where, name+" requires "+cl.Src)
 	}
 	if p := ctr.PanicsIff; p != nil && p.inMode(fx.mode) {
 		pc := fx.evalClause(*p, env)
@@ -685,6 +692,28 @@ func (fx *fnExec) tryEvalCalleeClause(cl Clause, env *SpecEnv, callee *ssa.Funct
 				if m != nil && (calleeHasLocal(callee, m[1]) || ctrHasGhost(ctr, m[1])) {
 					ok = false
 					return
+				}
+			}
+			panic(r)
+		}
+	}()
+	return fx.evalClause(cl, env), true
+}
+
+// tryEvalCalleePre: a precondition of a closure that names one of the closure's free variables which the call site
+// cannot resolve (closure reached through a captured variable) is reported as not stated; anything else is an error.
+func (fx *fnExec) tryEvalCalleePre(cl Clause, env *SpecEnv, callee *ssa.Function) (t Term, ok bool) {
+	defer func() {
+		if r := recover(); r != nil {
+			if ve, isVE := r.(vcError); isVE && strings.Contains(ve.msg, "unknown identifier") && callee != nil {
+				m := regexp.MustCompile(`unknown identifier "([^"]+)"`).FindStringSubmatch(ve.msg)
+				if m != nil {
+					for _, f := range callee.FreeVars {
+						if f.Name() == m[1] {
+							ok = false
+							return
+						}
+					}
 				}
 			}
 			panic(r)
